@@ -450,8 +450,8 @@ func (r *Runner) doStep(st Step) bool {
 			}
 		}
 	case "closestore":
-		if e.Coll != nil {
-			return true // documented order: collection first
+		if e.Coll != nil && st.A != "first" {
+			return true // usual order: collection first
 		}
 		if e.Store != nil {
 			if err := e.CloseStore(); err != nil {
